@@ -23,6 +23,13 @@ class Plain:
         return self.s
 
 
+class Msg:
+    """a message object: offered to the translation function before it is converted to text"""
+
+    def __str__(self):
+        return "msg<m>"
+
+
 class Html:
     def __init__(self, s="<i>raw&amp;</i>"):
         self.s = s
@@ -73,6 +80,7 @@ EXC_CLASSES = {
     "ZeroDivisionError": ZeroDivisionError, "RuntimeError": RuntimeError,
     "KeyboardInterrupt": KeyboardInterrupt, "SystemExit": SystemExit,
     "RecursionError": RecursionError, "Custom2": Custom2, "CustomStr": CustomStr,
+    "Exception": Exception,
 }
 
 
@@ -132,7 +140,7 @@ class ValueFactory:
             import builtins
             return getattr(builtins, v["n"])
         if t == "obj":
-            o = {"plain": Plain, "html": Html, "falsy": Falsy, "attr": WithAttr}[v["kind"]]()
+            o = {"plain": Plain, "html": Html, "falsy": Falsy, "attr": WithAttr, "msg": Msg}[v["kind"]]()
             self.back[id(o)] = (o, v)
             return o
         raise ValueError(v)
@@ -187,7 +195,8 @@ def expr_text(e, ctx=None):
         inner = expr_text(e["e"])
         return {"lambda": "(lambda: %s)()", "lamarg": "(lambda x, len=None: x)(%s)", "listcomp": "[%s for _z in (1,)][0]",
                 "genexp": "list(%s for _z in (1,))[0]", "cond": "(%s if True else None)", "dictitem": "{'k': %s}['k']",
-                "setcomp": "list({_z: %s for _z in (1,)}.values())[0]", "paren": "(%s)"}[e["w"]] % inner
+                "setcomp": "list({_z: %s for _z in (1,)}.values())[0]", "paren": "(%s)",
+                "ltcond": "(%s if 1 < 2 else None)", "ampand": "(1 & 3 and %s)"}[e["w"]] % inner
     if x == "attr":
         return "%s.%s" % (expr_text(e["e"]), e["a"])
     if x == "skeys":
@@ -536,6 +545,10 @@ def expected_translate_calls(log, c, p, vf, variant):
     """the ordered translate calls the machine's log prescribes: (msgid, mapping, default, domain, context, target)"""
     calls = []
     for n, ev in enumerate(log, 1):
+        if ev["ev"] == "offer":
+            # a message object offered for translation before it is converted to text
+            calls.append(("<msg>", None, None, ev["d"] or None, ev["c"] or None, ev["t"] or None))
+            continue
         if ev["ev"] != "translate":
             continue
         info = _trans_info(ev, log, c, p, vf, variant)
